@@ -3,7 +3,7 @@
    N, Z, Q stay extracted inductives.  No Extract Constant. *)
 Require Extraction.
 Require Import ExtrOcamlBasic.
-From KV Require Import Model.Triu Model.Greedy Model.Kaisa Model.Trace Model.Sched Model.Register Model.Neox Model.Bucket Model.Coll Model.Mat Model.Precond Model.Clip Model.Conv Model.Factor Model.Kfac Model.Placement Model.Frame Model.Shard.
+From KV Require Import Model.Triu Model.Greedy Model.Kaisa Model.Trace Model.Sched Model.Register Model.Neox Model.Bucket Model.Coll Model.Mat Model.Precond Model.Clip Model.Conv Model.Factor Model.Kfac Model.Placement Model.Frame Model.Shard Model.NeoxCkpt.
 Extraction "model.ml" triu_idx fill_index_matrix sym_comm_outcome
   greedy greedy_ok_b greedy_prop_b kaisa_view
   Trace.run Sched.srun Sched.ctor_ok Sched.exp_decay_q
@@ -19,4 +19,5 @@ Extraction "model.ml" triu_idx fill_index_matrix sym_comm_outcome
   Kfac.krun Kfac.krun_trace Kfac.init
   Placement.placement_view
   Frame.step_env Frame.touched
-  Shard.neox_precondition.
+  Shard.neox_precondition
+  NeoxCkpt.gathered NeoxCkpt.dict_get NeoxCkpt.load NeoxCkpt.recomputes NeoxCkpt.save_comm NeoxCkpt.load_comm.
